@@ -198,6 +198,55 @@ def polarization_argument(o):
     return (px, py)
 
 
+WARM = ["radius", "index", "absorption", "wavelength", "position"]
+
+
+def warm_strategy():
+    """how (if at all) the theory object is used once on a sibling problem before the calculation under test."""
+    return st.one_of(st.none(), st.none(), st.sampled_from(WARM))
+
+
+def warm_up(theory, scat, o, how):
+    """Use `theory` once on a sibling of `scat` that differs in exactly one respect, and throw the result away.
+    A theory object that remembers anything from one calculation to the next (a cache keyed too coarsely, a
+    weight array modified in place) then gives a wrong answer in the calculation that follows."""
+    if how is None:
+        return
+    import copy
+    import holopy as hp
+    from holopy.scattering import calc_field, Sphere, Spheres
+    try:
+        def sib(s):
+            s2 = copy.copy(s)
+            if how == "radius":
+                if hasattr(s2, "r"):
+                    s2.r = tuple(np.asarray(s2.r) * 1.37) if np.ndim(s2.r) else s2.r * 1.37
+                if hasattr(s2, "d"):
+                    s2.d = s2.d * 1.37; s2.h = s2.h * 1.37
+            elif how == "index":
+                s2.n = tuple(np.asarray(s2.n) + 0.11) if np.ndim(s2.n) else s2.n + 0.11
+            elif how == "absorption":
+                s2.n = tuple(np.asarray(s2.n) + 0.05j) if np.ndim(s2.n) else s2.n + 0.05j
+            elif how == "position":
+                s2.center = tuple(np.asarray(s2.center, dtype=float) + np.array([0.21, -0.13, 0.4]))
+            return s2
+        if isinstance(scat, Spheres):
+            sc2 = Spheres([sib(m) for m in scat.scatterers], warn=False)
+            c = np.asarray(sc2.centers, dtype=float).mean(0); rmax = max(float(np.max(m.r)) for m in sc2.scatterers)
+            ext = float(np.abs(np.asarray(sc2.centers) - c).max())
+        else:
+            sc2 = sib(scat)
+            c = np.asarray(sc2.center, dtype=float)
+            rmax = max(float(np.max(getattr(sc2, "r", 0.0))), float(getattr(sc2, "d", 0.0)), float(getattr(sc2, "h", 0.0))); ext = 0.0
+        wl = o["wl"] * (0.8 if how == "wavelength" else 1.0)
+        k = TWO_PI * o["nm"] / wl
+        d = hp.detector_points(x=np.array([c[0] + 1.0 / k]), y=np.array([c[1] - 2.0 / k]), z=np.array([c[2] - 1.5 * (rmax + ext) - 45.0 / k]))
+        pol = (1.0, 0.0) if type(theory).__name__ == "Tmatrix" else polarization_argument(o)
+        calc_field(d, sc2, theory=theory, medium_index=o["nm"], illum_wavelen=wl, illum_polarization=pol)
+    except Exception:
+        pass     # the warm-up is only there to leave its traces in the theory object
+
+
 def optics_kwargs(o):
     return dict(medium_index=o["nm"], illum_wavelen=o["wl"], illum_polarization=polarization_argument(o))
 
@@ -291,6 +340,8 @@ def build_theory(th):
     from holopy.scattering import Mie, Multisphere, Tmatrix
     from holopy.scattering.theory import MieLens, AberratedMieLens, Lens
     t = th["t"]
+    if t == "auto":
+        return "auto"
     if t == "mie":
         return Mie(compute_escat_radial=th.get("radial", True), full_radial_dependence=th.get("full", True))
     if t == "ms":
